@@ -536,7 +536,8 @@ class Mesh:
         # Deconstruct the tree into indexes, with parents before children.
         bone_indexes: dict[Bone, int] = {}
         next_ind = 0
-        todo: set[Bone] = set(self.bones.values())
+        # Keep the order of the bones dict, so the numbering is reproducible.
+        todo: list[Bone] = list(dict.fromkeys(self.bones.values()))
         while todo:
             changed = False
             for bone in list(todo):
